@@ -49,6 +49,7 @@ type Prog struct {
 	Decls map[*types.Func]*ast.FuncDecl
 	// all source functions in module packages (incl. anonymous)
 	srcFuncs []*ssa.Function
+	byName   map[string]*ssa.Function
 }
 
 func setEnv() {
